@@ -63,6 +63,17 @@ SHAPES_CORE = [
     "a(i) = X(i) + Y(i,k) - Z(k,i)",
     "o() = (X() + Y(k)) * Z(k)",
     "a(i) = b(i) * c(k) + d(i)",
+    "a(i) = 2 * b(i)",
+    "a(i) = 2 * b(i) * c(i)",
+    "a(i) = b(i) * c(i) - d(i)",
+    "a(i) = b(i) + c(i) + d(i) + e(i)",
+    "A(i,j) = 2 * B(i,j) * C(i,j)",
+    "A(i,j) = B(i,j) * C(i,j) - D(i,j)",
+    "A(i,j) = c(j) * B(i,j)",
+    "A(i,j) = B(i,j) + C(i,j) + D(i,j)",
+    "a(i) = B(i,j) * C(j,k) * d(k)",
+    "o() = X() - Y(k) + Z(k)",
+    "a(i) = b(i) - C(i,k) - D(i,k)",
 ]
 
 SHAPES_ORDER3 = [
@@ -77,6 +88,8 @@ SHAPES_ORDER3 = [
     "A(i,j) = B(i,j,k)",
     "a(i) = B(i,j,k)",
     "A(i,j) = B(i,k,l) * C(k,j) * D(l,j)",
+    "a(i) = B(i,j,k) * C(j,k)",
+    "A(i,j,k) = D(i,j,l) * C(l,k)",
 ]
 
 _TENSOR = re.compile(r"([A-Za-z][A-Za-z0-9]*)\(([^)]*)\)")
@@ -219,11 +232,68 @@ QUICK_FIXED = [
     ("a(i) = (c(i) + b(i)) + d(i)", {"a": "s", "c": "s", "b": "s", "d": "d"}),
     ("t9(i1) = t1(i1,i0) * t0(i0)", {"t9": "s", "t1": "ss", "t0": "s"}),
     ("o() = Z(k) + X() + Y(k)", {"o": "", "Z": "s", "X": "", "Y": "d"}),
+    # sums/differences whose terms have different contracted indexes, every association
+    ("o() = X() - Y(k) - Z(k)", {"o": "", "X": "", "Y": "s", "Z": "d"}),
+    ("o() = X() - Y(k) + Z(k)", {"o": "", "X": "", "Y": "d", "Z": "s"}),
+    ("a(i) = b(i) - C(i,k) - D(i,k)", {"a": "d", "b": "s", "C": "ds", "D": "ds"}),
+    ("a(i) = (b(i) - C(i,k)) * e(i) + D(i,k)", {"a": "d", "b": "d", "C": "ds", "e": "s", "D": "ds"}),
+    ("o() = Y(k) - (X() - Z(k))", {"o": "", "X": "", "Y": "s", "Z": "s"}),
+    # literal factors / subtraction next to sparse products and sparse outputs (exhaustion of scaled operands)
+    ("a(i) = 2 * b(i) * c(i)", {"a": "s", "b": "s", "c": "s"}),
+    ("A(i,j) = 2 * B(i,j) * C(i,j)", {"A": "ss", "B": "ss", "C": "ss"}),
+    ("A(i,j) = 2 * B(i,j) * C(i,j)", {"A": "sd", "B": "ss", "C": "ds"}),
+    ("A(i,j) = B(i,j) * C(i,j) - D(i,j)", {"A": "sd", "B": "ss", "C": "ds", "D": "ds"}),
+    ("a(i) = b(i) * c(i) - d(i)", {"a": "s", "b": "s", "c": "s", "d": "s"}),
+    ("a(i) = b(i) - c(i)", {"a": "s", "b": "s", "c": "s"}),
+    ("a(i) = 2 * b(i)", {"a": "s", "b": "s"}),
+    ("A(i,j) = c(j) * B(i,j)", {"A": "ss", "B": "ss", "c": "s"}),
+    # three and four sparse operands co-iterated in one sparse loop
+    ("a(i) = b(i) + c(i) + d(i) + e(i)", {"a": "s", "b": "s", "c": "s", "d": "s", "e": "s"}),
+    ("A(i,j) = B(i,j) + C(i,j) + D(i,j)", {"A": "ds", "B": "ds", "C": "ds", "D": "ds"}),
+    # dense contraction above / next to a sparse one, compressed output
+    ("a(i) = B(i,j,k) * C(j,k)", {"a": "s", "B": "sds", "C": "ds"}),
+    ("a(i) = B(i,j) * C(j,k) * d(k)", {"a": "s", "B": "sd", "C": "ds", "d": "s"}),
 ]
 
 
-def quick_requests() -> list[Request]:
+def format_sweep_requests() -> list[Request]:
+    """Every output format of order 2 (all 8 modes x orderings) fed by a sparse and by a dense
+    operand, and every 3-cycle / transposition ordering of order 3 as output (dense and mixed
+    modes): the output side of the generator sees each level pattern and each non-self-inverse
+    ordering at least once.  Copy and element-wise kernels only (cheap)."""
+    out = []
+    for f in all_formats(2):
+        out.append(Request.make("A(i,j) = B(i,j)", {"A": f, "B": "ss"}))
+        out.append(Request.make("A(i,j) = B(i,j)", {"A": f, "B": "dd"}))
+        out.append(Request.make("A(i,j) = B(i,j) + C(j,i)", {"A": f, "B": "ds", "C": "ds"}))
+    for perm in ("120", "201", "021", "102", "210"):
+        for modes in ("ddd", "dds", "sdd", "dsd", "ssd"):
+            f = "".join(m + p for m, p in zip(modes, perm))
+            out.append(Request.make("A(i,j,k) = B(i,j,k)", {"A": f, "B": "sss"}))
+    for perm in ("120", "201"):
+        f = "".join(m + p for m, p in zip("ddd", perm))
+        out.append(Request.make("A(i,j,k) = D(i,j,l) * C(l,k)", {"A": f, "D": "dss", "C": "dd"}))
+    return out
+
+
+def core_requests() -> list[Request]:
+    """The fixed list only (used by the multi-kernel checks, which run 2-4 kernels per path)."""
     return [Request.make(a, f) for a, f in QUICK_FIXED]
+
+
+def sweep_keys() -> set:
+    core = {r.key() for r in core_requests()}
+    return {r.key() for r in format_sweep_requests()} - core
+
+
+def quick_requests() -> list[Request]:
+    seen = set()
+    out = []
+    for r in [Request.make(a, f) for a, f in QUICK_FIXED] + format_sweep_requests():
+        if r.key() not in seen:
+            seen.add(r.key())
+            out.append(r)
+    return out
 
 
 def thorough_requests(seed: int, per_shape: int = 40, per_shape3: int = 16) -> list[Request]:
